@@ -4,7 +4,7 @@ Generators (DESIGN §6.4).  Every random choice derives from the one `random.Ran
 import itertools, math, random
 from core import make_game, KINDS, DEFAULTS
 
-GAMMAS = [("D", 0.0), ("D", 0.0), ("D", 0.0), ("C", 0.5), ("C", 2.0), ("I", 0.0), ("R", 0.0), ("Q", 0.0), ("Z", 0.0)]
+GAMMAS = [("D", 0.0), ("D", 0.0), ("D", 0.0), ("C", 0.5), ("C", 2.0), ("I", 0.0), ("R", 0.0), ("Q", 0.0), ("Z", 0.0), ("T", 0.0)]
 
 
 def weak_orders(n):
